@@ -54,9 +54,9 @@ def c05(out):
                 "structured cases enumerate every total length 0..3 batches+17 x 6 cut patterns x 5 counter kinds, the rest are random; each history is run on every "
                 "back end (pinned through the cap hook, pinning confirmed from the handle) and every judged output byte is compared with an independent "
                 "reference CTR (model block cipher + big-endian counter). A case is non-trivial if it has >2 operations; distinct = distinct history hashes.")
-    variants = [("prod", n(out, 4200, 240000)), ("asan", n(out, 900, 30000))]
+    variants = [("prod", n(out, 4200, 240000)), ("asan", n(out, 900, 30000)), ("prod+W32+UNAL0", n(out, 900, 30000))]
     if out.tier == "thorough":
-        variants += [("clang", 60000), ("prod+W32", 30000), ("prod+UNAL0", 30000), ("asan+UNAL0", 9000), ("msan", 9000), ("prod+O0", 9000)]
+        variants += [("clang", 60000), ("prod+W32", 30000), ("prod+UNAL0", 30000), ("asan+UNAL0", 9000), ("msan", 9000), ("prod+O0", 9000), ("prod+NEUTRAL", 9000)]
     for vname, cases in variants:
         exe = build_driver("drv_ctr", ["drv_ctr.c"] + HIST, vname)
         nstruct = min(cases // 2, 3 * (3 * 128 + 18) * 30)
@@ -73,9 +73,9 @@ def c06(out):
                 "changes, invalid calls, cleanup, re-init, use after cleanup) and on parallel-ECB objects (set_key, encrypt/decrypt/crypt of any block count, invalid sizes, swap); "
                 "each history runs on every back end available and full transcripts (every return value and output byte) must equal the generic back end's. "
                 "non-trivial: >2 operations; distinct = distinct history hashes.")
-    variants = [("prod", n(out, 4500, 240000)), ("asan", n(out, 900, 30000))]
+    variants = [("prod", n(out, 4500, 240000)), ("asan", n(out, 900, 30000)), ("prod+W32+UNAL0", n(out, 900, 30000))]
     if out.tier == "thorough":
-        variants += [("clang", 60000), ("prod+W32", 30000), ("prod+UNAL0", 30000)]
+        variants += [("clang", 60000), ("prod+W32", 30000), ("prod+UNAL0", 30000), ("clang+W32+UNAL0", 20000)]
     for vname, cases in variants:
         exe = build_driver("drv_ctr", ["drv_ctr.c"] + HIST, vname)
         run_sharded(out, exe, ["--prop", "C06", "--mode", "xbe"], vname, cases, label="ctr")
@@ -123,9 +123,9 @@ def c03(out):
     out.rule = ("case index mod 4: 0,1 = SKINNY single-block D(E(x)) and E(D(x)) under plain keys of every primary size and tweaked schedules; 2 = parallel ECB round trips for every block count "
                 "0..40 then random counts up to 300, both orders, in place and out of place, on every back end (Mantis via swap_modes, plus double-swap identity); 3 = Mantis histories of 1..40 operations "
                 "over set_key(mode)/set_tweak/set_tweak(NULL)/swap_modes/crypt/crypt_tweaked checked against a (key,tweak,mode,rounds) model, and after every swap the schedule is compared behaviourally with a fresh schedule keyed in the other mode.")
-    v = [("prod", n(out, 40000, 2000000)), ("asan", n(out, 8000, 200000)), ("prod+W32", n(out, 8000, 200000))]
+    v = [("prod", n(out, 40000, 2000000)), ("asan", n(out, 8000, 200000)), ("prod+W32", n(out, 8000, 200000)), ("prod+NEUTRAL", n(out, 6000, 100000)), ("prod+W32+UNAL0", n(out, 6000, 100000))]
     if out.tier == "thorough":
-        v += [("clang", 300000), ("prod+UNAL0", 100000), ("prod+NEUTRAL", 100000), ("msan", 40000)]
+        v += [("clang", 300000), ("prod+UNAL0", 100000), ("prod+W32+NEUTRAL", 100000), ("msan", 40000)]
     _blk(out, "C03", "c03", v)
     out.assumptions += ["round-trip identities are metamorphic; absolute correctness is tied to the models by C01/C02/C07"]
 
@@ -151,9 +151,9 @@ def c07(out):
     out.rule = ("parallel-ECB histories: structured = every block count 0..27 x {encrypt, decrypt} x {in place, out of place} per cipher; random = histories with counts up to 300 blocks, "
                 "remainders, zero-length calls, any legal key length, random placements in exact-extent guard buffers; every back end pinned; each judged call compared with the library's own "
                 "single-block functions block by block (Mantis: i-th tweak) and with the reference model; parallel_size checked to be a positive multiple of the block size.")
-    v = [("prod", n(out, 6000, 300000)), ("asan", n(out, 1200, 40000)), ("prod+W32", n(out, 1200, 40000))]
+    v = [("prod", n(out, 6000, 300000)), ("asan", n(out, 1200, 40000)), ("prod+W32", n(out, 1200, 40000)), ("prod+UNAL0", n(out, 1200, 40000))]
     if out.tier == "thorough":
-        v += [("clang", 60000), ("prod+UNAL0", 30000), ("msan", 9000), ("prod+O0", 9000)]
+        v += [("clang", 60000), ("prod+W32+UNAL0", 30000), ("msan", 9000), ("prod+O0", 9000), ("prod+NEUTRAL", 9000)]
     for vname, cases in v:
         exe = build_driver("drv_par", ["drv_par.c"] + HIST, vname)
         run_sharded(out, exe, ["--prop", "C07", "--mode", "model", "--structured", str(3 * 28 * 2 * 2)], vname, cases)
@@ -261,9 +261,9 @@ def c09(out):
                 "every length 0..2 batches+17 and a few of 3000..4000, arbitrary stream offset, in place 1/3) or parallel ECB (0..19 blocks and up to 220, in place 1/3, Mantis tweak array); every pointer argument is "
                 "placed exact-extent against a PROT_NONE page (back or front) or at misalignment 0..63 with canaries in the slack; result must equal the same call on aligned separate buffers, inputs unmodified, "
                 "canaries intact, no fault. prod build = hardware guard pages, asan build = byte-exact poisoning of the slack, thorough adds memcheck NOACCESS slack. distinct = distinct (function, length, placement) configurations.")
-    v = [("prod", n(out, 160000, 4000000)), ("asan", n(out, 40000, 600000))]
+    v = [("prod", n(out, 160000, 4000000)), ("asan", n(out, 40000, 600000)), ("prod+W32+UNAL0", n(out, 40000, 300000)), ("asan+UNAL0", n(out, 20000, 100000))]
     if out.tier == "thorough":
-        v += [("clang", 600000), ("prod+UNAL0", 300000), ("prod+W32", 300000), ("asan+UNAL0", 100000), ("prod+O0", 100000)]
+        v += [("clang", 600000), ("prod+UNAL0", 300000), ("prod+W32", 300000), ("prod+O0", 100000), ("prod+NEUTRAL", 100000), ("asanclang", 100000)]
     for vname, cases in v:
         exe = build_driver("drv_buf", ["drv_buf.c"] + HIST, vname)
         run_sharded(out, exe, ["--prop", "C09", "--mode", "c09"], vname, cases)
